@@ -23,7 +23,8 @@ From SK Require Import lib.Tok lib.LGraph model.C03_Model proof.C03_Spec proof.C
                        proof.C03_Wiring proof.C03_WiringCount proof.C03_PairIds proof.C03_StripExact proof.C03_StripCor
                        proof.C03_PairIdsComplete proof.C03_Wrap proof.C03_DefaultBalance
                        proof.C03_DefaultEnd proof.C03_DefaultWiring
-                       model.C03_Order proof.C03_Ord proof.C03_FirstFit proof.C03_OrdEnd.
+                       model.C03_Order proof.C03_Ord proof.C03_FirstFit proof.C03_OrdEnd
+                       model.C03_Reactor proof.C03_ReactorProof.
 Import ListNotations.
 Local Open Scope Z_scope.
 
@@ -771,4 +772,68 @@ Theorem C03_default_migrations_in_template_groups_ord : forall (ord : list N -> 
                     0 < dl_of T (fst sd) /\ dl_of T (snd sd) < 0.
 Proof. exact default_migrations_in_template_groups_ord. Qed.
 Print Assumptions C03_default_migrations_in_template_groups_ord.
+
+(** ** round 5: the reactor as a state machine (model/C03_Reactor.v): the lazily cached _rule / _mappings (+ the
+    explicit-hydrogen flag) / _its / _smarts behind rule, mappings, mapping_count, its_list, smarts_list, smiles_list and
+    their aliases.  [step inp st op] = one attribute read (new caches, value); [run_ops] = a script of reads; [spec_val inp op]
+    = the value the INPUTS determine (template, substrate, options; oracle inputs: the matcher's mappings and re-matches,
+    the visiting orders, RDKit's strings); [nocrash inp] = no _explicit_h call raises.  The correspondence runs scripts of
+    reads on fresh reactors ([run_reads]) and compares every value. *)
+
+(** whatever is read, in whatever order and however often, on a fresh reactor: every read returns the value the inputs
+    determine; and one step from ANY state whose caches hold only such values keeps that invariant ([inv0]) *)
+Theorem C03_reads_stable : forall (inp : rin), nocrash inp ->
+  (forall ops : list rop, run_ops inp rs0 ops = map (spec_val inp) ops) /\
+  (forall (st : rstate) (op : rop), inv0 inp st ->
+     forall (st' : rstate) (v : rval), step inp st op = (st', v) -> v = spec_val inp op /\ inv0 inp st').
+Proof.
+  intros inp Hnc. split; [intros ops; exact (reads_stable inp ops Hnc)|].
+  intros st op Hinv st' v H. exact (step_spec inp st op Hnc Hinv st' v H).
+Qed.
+Print Assumptions C03_reads_stable.
+
+(** its_list on a FRESH reactor takes the route the pattern calls for: `self.mappings` is evaluated (and sets the flag)
+    before the flag is read — the class of "first thing asked of a fresh reactor" changes *)
+Theorem C03_fresh_its_route : forall (inp : rin) (rc : its) (l r : molg),
+  i_rule inp = Some (rc, l, r) -> nocrash inp ->
+  forall (st' : rstate) (v : rval), step inp rs0 Oits = (st', v) ->
+    s_flag st' = has_XH l /\
+    v = match spec_its inp with Some gs => Vits gs | None => Vraise end /\
+    (i_explicit inp = false -> v = Vits (map fst (glue_all (has_XH l) (i_host inp) rc (i_calls inp) (i_tbls inp)))).
+Proof. exact fresh_its_route. Qed.
+Print Assumptions C03_fresh_its_route.
+
+(** the code as it is: when _explicit_h raises (a group with more hydrogens to give than to take), the first read of
+    its_list raises and every later read silently returns the GLUED graphs, without the explicit-hydrogen stage — the
+    cache was filled before the stage ran.  Replayed on the implementation (notes/C03.md).  Not a C03 violation (the
+    graphs returned are the rule's instances in count form; rules prepared from reaction templates never raise), recorded
+    as an observation about stale state after an exception *)
+Theorem C03_reads_after_crash : forall (inp : rin) (rc : its) (l r : molg),
+  i_rule inp = Some (rc, l, r) -> i_explicit inp = true -> explicit_all (spec_glued inp) = None ->
+  run_ops inp rs0 [Oits; Oits; Oits] = [Vraise; Vits (map fst (spec_glued inp)); Vits (map fst (spec_glued inp))].
+Proof. exact reads_after_crash. Qed.
+Print Assumptions C03_reads_after_crash.
+
+(** the string half of the serialisation, for RDKit strings without '>' (premise: SMILES never contain it): entry by entry,
+    smarts_list holds "r>>p" forwards and "p>>r" backwards for every result RDKit could write on both sides (the others are
+    dropped), and smiles_list extracts p forwards and r — the substrate side — backwards.  With C03_left_is_host (r is
+    the serialisation of the substrate side of the ITS) this is clause (a) at the level of the returned strings:
+    substrate first when applied forwards, substrate last when applied backwards *)
+Theorem C03_smarts_direction : forall (ser : nat -> its -> option str * option str),
+  (forall (i : nat) (g : its) (r p : str), ser i g = (Some r, Some p) -> ~ In GT r /\ ~ In GT p) ->
+  forall (invert : bool) (gs : list its),
+    smarts_of invert ser gs = flat_map (fun x : list str => x) (mapi (fun i g => entry invert (ser i g)) O gs) /\
+    map last_part (smarts_of invert ser gs) = flat_map (fun x : list str => x) (mapi (fun i g => side_entry invert (ser i g)) O gs).
+Proof. exact smarts_of_spec. Qed.
+Print Assumptions C03_smarts_direction.
+
+(** reverse_reaction / split(">>") on such strings *)
+Theorem C03_reverse_reaction : forall r p : str, ~ In GT r -> ~ In GT p ->
+  split_gt (join_gt r p) = [r; p] /\ reverse_reaction (join_gt r p) = join_gt p r /\
+  reverse_reaction (reverse_reaction (join_gt r p)) = join_gt r p /\ last_part (join_gt r p) = p.
+Proof.
+  intros r p Hr Hp. split; [exact (split_join r p Hr Hp)|]. split; [exact (reverse_join r p Hr Hp)|].
+  split; [exact (reverse_involutive r p Hr Hp)|exact (last_join r p Hr Hp)].
+Qed.
+Print Assumptions C03_reverse_reaction.
 
